@@ -41,6 +41,13 @@
 (*              GLOBAL FORWARD EQU SET ENUM NEXTENUM ENUMCONF PUSHV POPV)  *)
 (*              and its tokenised arguments; gsym: {GLOBALSYMBOLS} option  *)
 (*              on a MACRO / loop header                                   *)
+(*        gk, ga  kind of the statement for the EXPECT list and the named *)
+(*              single-statement actions: EXPECT (ga = its arguments: a    *)
+(*              literal decimal number or -1), ENDEXPECT, EMPTY (blank /   *)
+(*              comment / label only as written), LIST, ALIGN (ga = <<n>>),*)
+(*              END, FUNCTION (ga = <<name>>) - only when the statement is *)
+(*              executed; IFDEF / IFNDEF (ga = <<name as stored, name in   *)
+(*              capitals>> for one plain name)                             *)
 (*        ch    emit / reserve / retract records [k, seg, addr, n, g, b,nb]*)
 (*  FILEEND  + haslst, lst: the symbol table of the listing, tokenised    *)
 (*        [n, s, v] (name, section name, integer value), if one was written*)
